@@ -47,9 +47,19 @@ def gen_tree(rng, P, nfiles=None, maxsize=2000):
             continue
         sz = rng.choice([0, 1, k1 - 1, k1, k1 + 1, 2 * k1, P.size - 1, P.size, P.size + 1, P.size + k1, P.size + 3 * k1 + 7, rng.randint(0, maxsize)])
         sz = max(0, min(sz, maxsize))
-        kind = rng.choice(["random", "random", "zeros", "text"])
+        kind = rng.choice(["random", "random", "zeros", "text", "sparse"])
         if kind == "zeros":
             c = bytes(sz)
+        elif kind == "sparse":
+            # mostly null bytes with a few short non-null runs (sparse files, zero-filled sectors): a block whose null-padded short parity
+            # decodes to the all-null codeword is then close to a real block
+            c = bytearray(sz)
+            for _r in range(rng.randint(1, 3)):
+                if sz:
+                    a_ = rng.randrange(sz)
+                    w_ = b"hello world"[:rng.randint(1, 11)]
+                    c[a_:a_ + len(w_)] = w_[:max(0, sz - a_)]
+            c = bytes(c[:sz])
         elif kind == "text":
             c = (b"lorem ipsum dolor " * (sz // 18 + 1))[:sz]
         else:
